@@ -196,6 +196,12 @@ def run(chk, repo, tier):
     from .common import Remap as _Remap
     _field_accumulation(_Remap(chk, {'C02-g': 'C09-f'}), repo, 'C02-g')
     chk.not_decided += ['numerical agreement with propagate_dft']
+    # what reaches either propagator: tilt attached before or after a plane survives every product (else the refusal below
+    # never sees it), and the DFT it is compared with is a function of its arguments (memoised coordinate vectors untouched)
+    chk.clause('C09-i', 'tilt metadata survives every product of fields; the DFT reference keeps no state between calls', 2)
+    from .common import mul_concat as _mul_concat9, cache_untouched as _cache_untouched9
+    _mul_concat9(chk, repo, 'C09-i')
+    _cache_untouched9(chk, repo, 'C09-i', modules=['fourier'])
 
     cfg = {'shape': pair('shape')}
     f, paths, _ = fft_paths(repo, cfg)
